@@ -62,6 +62,7 @@ def gen_steady(rnd, spec):
     gen = {"accept_delay": delay, "payloads": [], "services": [], "grace": 0.2}
     script = [["wait_running", 10]]
     expected = []  # ids that must have started exactly once at quiescence
+    dropped = []  # services dropped on purpose: at most once
     n = [0]
 
     def new_id(prefix="p"):
@@ -140,7 +141,11 @@ def gen_steady(rnd, spec):
         gen["services"].append({"id": old, "flavour": flavour, "program": [["sleep", 0.005]]})
         gen["services"].append({"id": new, "flavour": flavour, "program": [["sleep", 0.005]]})
         late += [["service", old], ["sleep", delay * 2 + 0.1], ["drop_service", old], ["service", new]]
-        expected += ["svc:" + old, "svc:" + new]
+        # the old one is dropped 0.1 s + two polling periods after its creation: normally it has been started by then, but on a
+        # starved machine the accept loop may not have polled yet, and a service that is collected before the loop saw it
+        # was never a live service - so it is only required not to start twice (seen as a false alarm under load)
+        expected += ["svc:" + new]
+        dropped.append("svc:" + old)
     # several threads registering payloads and creating services at the same time before the runtime starts
     if rnd.random() < 0.4:
         gen["prestart_threads"] = rnd.choice([2, 3, 4])
@@ -154,7 +159,7 @@ def gen_steady(rnd, spec):
     script.append(["sleep", 0.35 + delay * 14])
     script.append(["quiesce"])
     gen["script"] = script
-    return {"watchdog": 40, "inject": common.inject_conf(rnd, 0.7), "generations": [gen], "meta": {"kind": "steady", "expected": expected}}
+    return {"watchdog": 40, "inject": common.inject_conf(rnd, 0.7), "generations": [gen], "meta": {"kind": "steady", "expected": expected, "dropped": dropped}}
 
 
 def gen_window(rnd, spec):
@@ -343,6 +348,11 @@ def judge(case, run, result):
             result.count("starts_exactly_once_%s" % sp["flavour"])
             if pid.startswith("svc:"):
                 result.count("services_started_exactly_once")
+        for pid in case["meta"].get("dropped", []):
+            starts = run.of("start", gen=0, pid=pid)
+            if len(starts) > 1:
+                problems.append(("service %s (dropped after a while) was started %d times" % (pid, len(starts)), None))
+            result.count("dropped_services_%s" % ("started_once" if starts else "collected_before_the_loop_saw_them"))
         result.count("adoptions_judged", len(case["meta"]["expected"]))
         if case["meta"].get("idle"):
             result.count("scenarios_with_idle_asyncio_loop")
